@@ -75,6 +75,8 @@ type env struct {
 	nextOrder  int
 	ordersSeen [][]int
 	tagSeq     int
+	current    int  // branch that last passed its gate (serial mode)
+	nonserial  bool // a branch event arrived while another branch was the running one
 	conc       bool // real concurrency: no gating, random yields
 }
 
@@ -84,6 +86,11 @@ func (e *env) emit(task int, s string) {
 	b := -1
 	if bi, ok := e.branchOf[task]; ok {
 		b = bi
+		if !e.conc && e.nb > 1 && e.current != b {
+			// the Go scheduler preempted a running branch (sysmon's cooperative preemption can
+			// still fire on a loaded machine): this run is not a serial execution
+			e.nonserial = true
+		}
 	}
 	e.log = append(e.log, s)
 	e.owner = append(e.owner, b)
@@ -164,9 +171,12 @@ func (e *env) gate(task int) {
 	for spins := 0; ; spins++ {
 		if fs.turn < len(fs.order) && fs.order[fs.turn] == b {
 			fs.started[b] = true
+			e.current = b
 			break
 		}
-		if fs.turn < len(fs.order) && fs.started[fs.order[fs.turn]] {
+		if fs.turn < len(fs.order) && fs.started[fs.order[fs.turn]] && !branchInFlight() {
+			// the turn holder has started and no branch goroutine is inside doTask any more
+			// (a merely preempted one would still be): it has finished
 			fs.turn++
 			continue
 		}
@@ -178,6 +188,22 @@ func (e *env) gate(task int) {
 		e.mu.Lock()
 	}
 	e.mu.Unlock()
+}
+
+// branchInFlight reports whether some fan-out branch goroutine (a conc pool worker) is currently
+// inside Worker.doTask and not merely waiting at a gate. The Go scheduler can preempt a running
+// branch cooperatively (sysmon, after 10ms of wall time — frequent on a loaded machine), so
+// "has started" alone does not mean "has finished".
+func branchInFlight() bool {
+	buf := make([]byte, 1<<20)
+	n := runtime.Stack(buf, true)
+	for _, g := range strings.Split(string(buf[:n]), "\n\n") {
+		if strings.Contains(g, "pool.(*Pool).worker") && strings.Contains(g, "funnel.(*Worker).doTask") &&
+			!strings.Contains(g, "main.(*env).gate") {
+			return true
+		}
+	}
+	return false
 }
 
 func validOrder(o []int, n int) bool {
@@ -220,11 +246,14 @@ func (e *env) pop(task int, calls *int) (reply, bool) {
 // ---------------- fake source ----------------
 
 type fakeSource struct {
-	e    *env
-	next int
+	e       *env
+	next    int
+	id      int     // task id (0 for the single-source component)
+	batches [][]rec // nil: use the case's batches
+	acks    []int   // log indices of this source's A events
 }
 
-func (s *fakeSource) ID() string                 { return "t0" }
+func (s *fakeSource) ID() string                 { return "t" + strconv.Itoa(s.id) }
 func (s *fakeSource) Open(context.Context) error { return nil }
 func (s *fakeSource) Errors() <-chan error       { return nil }
 func (s *fakeSource) Teardown(context.Context) error {
@@ -232,10 +261,14 @@ func (s *fakeSource) Teardown(context.Context) error {
 }
 
 func (s *fakeSource) Read(context.Context) ([]opencdc.Record, error) {
-	if s.next >= len(s.e.c.batches) {
+	bs := s.batches
+	if bs == nil {
+		bs = s.e.c.batches
+	}
+	if s.next >= len(bs) {
 		return nil, io.EOF
 	}
-	b := s.e.c.batches[s.next]
+	b := bs[s.next]
 	s.next++
 	s.e.mu.Lock()
 	s.e.pass = s.next
@@ -252,7 +285,11 @@ func (s *fakeSource) Ack(_ context.Context, ps []opencdc.Position) error {
 	for i, p := range ps {
 		parts[i] = posOf(p).String()
 	}
-	s.e.emit(-1, "A["+strings.Join(parts, ",")+"]")
+	s.e.mu.Lock()
+	s.acks = append(s.acks, len(s.e.log))
+	s.e.log = append(s.e.log, "A["+strings.Join(parts, ",")+"]")
+	s.e.owner = append(s.e.owner, -1)
+	s.e.mu.Unlock()
 	return nil
 }
 
@@ -616,6 +653,8 @@ func runCase(c *fcase, r *gen.Rand, o *gen.Out, conc bool) (line, res string, no
 	if r != nil {
 		e.seed = r.U64()
 		e.orderRng = gen.New(r.U64())
+		c.scripts = map[int][]reply{}
+		c.orders = nil
 	}
 	e.yieldRng = gen.New(e.seed + 77)
 	if false {
@@ -653,8 +692,141 @@ func runCase(c *fcase, r *gen.Rand, o *gen.Out, conc bool) (line, res string, no
 	if r != nil && !conc {
 		c.orders = e.ordersSeen
 	}
+	if e.nonserial && !conc {
+		return "skip nonserial", "skipped", false
+	}
 	res = strings.Join(e.log, " ; ") + " => " + result
 	nontrivial = strings.Contains(res, "Q99") || strings.Contains(res, "err ") || nb > 1 || strings.Contains(c.line(), "m[") || strings.Contains(c.line(), ",z") || strings.Contains(c.line(), ",f")
 	o.Count("result=" + strings.SplitN(result, " ", 2)[0])
 	return c.line(), res, nontrivial
+}
+
+// ---------------- several sources sharing one sink (component funnelshared) ----------------
+
+// runShared builds N workers (one per source, each with its own DLQ and an optional source-level
+// processor) attached to ONE shared tail (optional shared processor + 1-2 destinations) exactly
+// as lifecycle-poc buildRunnablePipeline does (funnel.NewSink marks the shared boundary), runs
+// the workers concurrently and returns one monitor line per source: the case as seen by that
+// source plus the global event log without the other sources' acks.
+func runShared(r *gen.Rand, o *gen.Out) (lines []string, nontrivial bool) {
+	c := &fcase{scripts: map[int][]reply{}}
+	switch r.Pick(3, 3, 2) {
+	case 0:
+		c.size, c.thr = 0, 0
+	case 1:
+		c.size = r.Range(1, 5)
+		c.thr = r.Range(0, c.size)
+	default:
+		c.size, c.thr = 20, 19
+	}
+	e := &env{c: c, gen: true, branchOf: map[int]int{}, o: o, conc: true}
+	e.seed = r.U64()
+	e.yieldRng = gen.New(e.seed + 77)
+	logger := log.Nop()
+	nsrc := r.Range(2, 3)
+	ndst := r.Range(1, 2)
+	sharedProc := r.Chance(1, 2)
+	o.Count(fmt.Sprintf("shared: sources=%d dests=%d sharedProc=%v", nsrc, ndst, sharedProc))
+	// shared tail
+	var destNodes []*funnel.TaskNode
+	tailStr := ""
+	for d := 0; d < ndst; d++ {
+		id := 10 + d
+		e.branchOf[id] = d
+		destNodes = append(destNodes, &funnel.TaskNode{Task: funnel.NewDestinationTask("t"+strconv.Itoa(id), &fakeDest{e: e, id: id}, logger, funnel.NoOpConnectorMetrics{})})
+		if d > 0 {
+			tailStr += ","
+		}
+		tailStr += "D" + strconv.Itoa(id)
+	}
+	roots := destNodes
+	if sharedProc {
+		pn := &funnel.TaskNode{Task: funnel.NewProcessorTask("t1", &fakeProc{e: e, id: 1}, logger, funnel.NoOpProcessorMetrics{})}
+		pn.Next = destNodes
+		roots = []*funnel.TaskNode{pn}
+		tailStr = "P1(" + tailStr + ")"
+	}
+	if _, err := funnel.NewSink(roots...); err != nil {
+		return nil, false
+	}
+	type srcState struct {
+		src     *fakeSource
+		w       *funnel.Worker
+		tree    string
+		batches [][]rec
+		result  string
+	}
+	var srcs []*srcState
+	for sidx := 0; sidx < nsrc; sidx++ {
+		st := &srcState{}
+		next := 1
+		for i, nb := 0, r.Range(1, 3); i < nb; i++ {
+			var bt []rec
+			for j, n := 0, r.Range(1, 5); j < n; j++ {
+				root := sidx*100 + next
+				bt = append(bt, rec{tag: root, pos: pos{kind: 'k', k: root}})
+				next++
+			}
+			st.batches = append(st.batches, bt)
+		}
+		st.src = &fakeSource{e: e, id: 200 + sidx, batches: st.batches}
+		first := &funnel.TaskNode{Task: funnel.NewSourceTask("t"+strconv.Itoa(200+sidx), st.src, logger, funnel.NoOpConnectorMetrics{})}
+		tail := first
+		inner := tailStr
+		if r.Chance(1, 2) {
+			pid := 210 + sidx
+			pn := &funnel.TaskNode{Task: funnel.NewProcessorTask("t"+strconv.Itoa(pid), &fakeProc{e: e, id: pid}, logger, funnel.NoOpProcessorMetrics{})}
+			tail.Next = []*funnel.TaskNode{pn}
+			tail = pn
+			inner = "P" + strconv.Itoa(pid) + "(" + tailStr + ")"
+		}
+		if err := tail.AppendToEnd(roots...); err != nil {
+			return nil, false
+		}
+		st.tree = "S" + strconv.Itoa(200+sidx) + "(" + inner + ")"
+		dlqID := 99 - sidx
+		dlq := funnel.NewDLQ("t"+strconv.Itoa(dlqID), &fakeDest{e: e, id: dlqID, dlq: true}, logger, funnel.NoOpConnectorMetrics{}, c.size, c.thr)
+		w, err := funnel.NewWorker(first, dlq, logger, noop.Timer{})
+		if err != nil {
+			return nil, false
+		}
+		st.w = w
+		srcs = append(srcs, st)
+	}
+	var wg sync.WaitGroup
+	for _, st := range srcs {
+		wg.Add(1)
+		go func(st *srcState) {
+			defer wg.Done()
+			defer func() {
+				if p := recover(); p != nil {
+					st.result = "panic"
+				}
+			}()
+			st.result = classify(st.w.Do(context.Background()))
+		}(st)
+	}
+	wg.Wait()
+	for _, st := range srcs {
+		other := map[int]bool{}
+		for _, o2 := range srcs {
+			if o2 != st {
+				for _, i := range o2.src.acks {
+					other[i] = true
+				}
+			}
+		}
+		var evs []string
+		for i, ev := range e.log {
+			if !other[i] {
+				evs = append(evs, ev)
+			}
+		}
+		cc := &fcase{size: c.size, thr: c.thr, scripts: c.scripts, batches: st.batches}
+		n, _, _ := parseNode(st.tree)
+		cc.tree = n
+		lines = append(lines, cc.line()+" ## "+strings.Join(evs, " ; ")+" => "+st.result)
+		o.Count("shared-result=" + strings.SplitN(st.result, " ", 2)[0])
+	}
+	return lines, true
 }
